@@ -287,7 +287,9 @@ def run_case(case):
         I = prog.build(ip, dialect=d)
         I2 = prog.build(ip, dialect=d)
     except Exception as e:
-        res.extra["disabled_inner"] = 1
+        res.nontrivial = 1
+        res.violate("C10|inner-build-raises|%s" % type(e).__name__, "a valid inner query of the menu was rejected while it was built",
+                    dialect=d, inner=ip, error=str(e)[:200])
         return res
     if pos in ("cte",) and not isinstance(I, QueryBuilder):
         pass
@@ -298,8 +300,13 @@ def run_case(case):
     try:
         outer, wrap, alias = POS[pos](Q, I)
     except Exception as e:
-        res.extra["disabled_outer"] = 1
-        res.extra.setdefault("disabled_outer_kinds", set()).add("%s:%s" % (pos, type(e).__name__))
+        if (pos, type(e).__name__) in (("as_select", "TypeError"),):  # CREATE TABLE .. AS takes a plain query only
+            res.extra["disabled_outer"] = 1
+            res.extra.setdefault("disabled_outer_kinds", set()).add("%s:%s" % (pos, type(e).__name__))
+            return res
+        res.nontrivial = 1
+        res.violate("C10|%s|outer-build-raises|%s" % (pos, type(e).__name__), "embedding a valid inner query at this position was rejected",
+                    dialect=d, pos=pos, inner=ip, error=str(e)[:200])
         return res
     res.nontrivial = 1
     res.states.append(h64(json.dumps([pos, ip], sort_keys=True)))
